@@ -27,6 +27,8 @@ pub struct MemSource {
 	/// environment answer: the source is not ready at once; every lookup / stream request first
 	/// returns Pending this many times (like a remote reader would)
 	pub yields: u8,
+	/// deliver box streams in reverse coordinate order (a source may deliver its tiles in any order)
+	pub reversed: bool,
 }
 
 pub fn pyramid_of(tiles: &TileMap) -> TileBBoxPyramid {
@@ -40,10 +42,14 @@ pub fn pyramid_of(tiles: &TileMap) -> TileBBoxPyramid {
 impl MemSource {
 	pub fn new(name: &str, tiles: TileMap, format: TileFormat, compression: TileCompression) -> MemSource {
 		let pyramid = pyramid_of(&tiles);
-		MemSource { name: name.to_string(), tiles, parameters: TilesReaderParameters::new(format, compression, pyramid), tilejson: TileJSON::default(), fast_stream: false, uneven: false, plain: false, yields: 0 }
+		MemSource { name: name.to_string(), tiles, parameters: TilesReaderParameters::new(format, compression, pyramid), tilejson: TileJSON::default(), fast_stream: false, uneven: false, plain: false, yields: 0, reversed: false }
 	}
 	pub fn with_pyramid(mut self, p: TileBBoxPyramid) -> MemSource {
 		self.parameters.bbox_pyramid = p;
+		self
+	}
+	pub fn with_reversed_stream(mut self) -> MemSource {
+		self.reversed = true;
 		self
 	}
 	pub fn with_uneven_yields(mut self) -> MemSource {
@@ -99,13 +105,20 @@ impl TilesReaderTrait for MemSource {
 		for _ in 0..self.yields {
 			tokio::task::yield_now().await;
 		}
-		if self.fast_stream {
-			let v: Vec<(TileCoord3, Blob)> = self
+		if self.fast_stream || self.reversed {
+			let mut v: Vec<(TileCoord3, Blob)> = self
 				.tiles
 				.iter()
 				.filter(|(k, _)| k.0 == bbox.level && k.1 >= bbox.x_min && k.1 <= bbox.x_max && k.2 >= bbox.y_min && k.2 <= bbox.y_max)
 				.map(|(k, v)| (TileCoord3 { x: k.1, y: k.2, z: k.0 }, Blob::from(v.as_slice())))
 				.collect();
+			if self.reversed {
+				// reverse, then swap neighbours: neither ascending nor descending
+				v.reverse();
+				for pair in v.chunks_mut(3) {
+					pair.swap(0, pair.len() - 1);
+				}
+			}
 			return TileStream::from_vec(v);
 		}
 		// the trait's default: a lookup loop over every coordinate of the box
